@@ -84,11 +84,35 @@ package queue
 //@   ensures forall m map[string]string :: !(result in m)
 //@   ensures forall m map[string]*Envelope :: !(result in m)
 
+//@ func (*MemoryStore).maybePruneLocked$1
+//@   trusted
+
 //@ func (*MemoryStore).maybePruneLocked
 //@   monitor locked
-//@   trusted
 //@   requires s != nil && wf(s)
-//@   modifies s.items, s.leases, s.lastPrune, s.evictionsTotalByReason
+//@   modifies s.items, s.leases, s.lastPrune, s.evictionsTotalByReason, field(s.evictionsTotalByReason), lastEvicted
+//@   loop 1 invariant [wf] wf(s)
+//@   loop 1 invariant [kept] forall id string :: id in s.items ==> old(id in s.items) && s.items[id] == old(s.items[id])
+//@   loop 1 invariant [only_eligible] forall id string :: old(id in s.items) && !(id in s.items) ==> old(pruneEligible(s, s.items[id], now))
+//@   loop 1 invariant [leases_same] leasesSame(s)
+//@   loop 2 invariant [wf] wf(s)
+//@   loop 2 invariant [kept] forall id string :: id in s.items ==> old(id in s.items) && s.items[id] == old(s.items[id])
+//@   loop 2 invariant [only_eligible] forall id string :: old(id in s.items) && !(id in s.items) ==> old(pruneEligible(s, s.items[id], now))
+//@   loop 2 invariant [leases_same] leasesSame(s)
+//@   loop 3 invariant [wf] wf(s)
+//@   loop 3 invariant [kept] forall id string :: id in s.items ==> old(id in s.items) && s.items[id] == old(s.items[id])
+//@   loop 3 invariant [only_eligible] forall id string :: old(id in s.items) && !(id in s.items) ==> old(pruneEligible(s, s.items[id], now))
+//@   loop 3 invariant [leases_same] leasesSame(s)
+//@   loop 4 invariant [wf] wf(s)
+//@   loop 4 invariant [kept] forall id string :: id in s.items ==> old(id in s.items) && s.items[id] == old(s.items[id])
+//@   loop 4 invariant [only_eligible] forall id string :: old(id in s.items) && !(id in s.items) ==> old(pruneEligible(s, s.items[id], now))
+//@   loop 4 invariant [leases_same] leasesSame(s)
+//@   loop 4 invariant [collected_are_dead] fresh(items.arr) && forall k int :: 0 <= k && k < len(items) ==> items[k].id in s.items ==> s.items[items[k].id].State == StateDead
+//@   loop 5 invariant [wf] wf(s)
+//@   loop 5 invariant [kept] forall id string :: id in s.items ==> old(id in s.items) && s.items[id] == old(s.items[id])
+//@   loop 5 invariant [only_eligible] forall id string :: old(id in s.items) && !(id in s.items) ==> old(pruneEligible(s, s.items[id], now))
+//@   loop 5 invariant [leases_same] leasesSame(s)
+//@   loop 5 invariant [collected_are_dead] s.dlqMaxDepth > 0 && i >= 0 && excess <= len(items) && fresh(items.arr) && forall k int :: 0 <= k && k < len(items) ==> items[k].id in s.items ==> s.items[items[k].id].State == StateDead
 //@   ensures [wf] wf(s)
 //@   ensures [kept] forall id string :: id in s.items ==> old(id in s.items) && s.items[id] == old(s.items[id])
 //@   ensures [only_eligible] forall id string :: old(id in s.items) && !(id in s.items) ==> old(pruneEligible(s, s.items[id], now))
